@@ -29,6 +29,7 @@ type Thread struct {
 	signaled  bool
 	pos       token.Pos
 	visible   bool // the sync operation being executed was called from instrumentable repo code
+	quiescing bool // blocked in vrtQuiesce (waiting for everybody else to block)
 	noPoints  int  // >0: inside a composite primitive (Cond.Wait): no scheduling points
 }
 
